@@ -566,8 +566,16 @@ impl<'a> Eval<'a> {
             return Ok(String::new());
         }
         // the shell kills itself: no exit code at all, still a failed command
-        if c == "kill -KILL $$" || c.ends_with("; kill -KILL $$") {
+        if c == "kill -KILL $$" {
             return Err(ErrKind::Command);
+        }
+        if let Some(head) = c.strip_suffix("; kill -KILL $$") {
+            // only `<vocabulary command>; kill -KILL $$`: anything else in front of the kill (for
+            // instance a swallowed line that puts it behind a shell comment sign) is outside D7
+            return match self.command(head, dir, src) {
+                Ok(_) | Err(ErrKind::Command) => Err(ErrKind::Command),
+                Err(e) => Err(e),
+            };
         }
         if c == "false" {
             return Err(ErrKind::Command);
